@@ -478,9 +478,80 @@ func (in *Interp) decDigits(ax *Term, n int) []*Term {
 	for i := 0; i < n; i++ {
 		p := new(big.Int).Exp(ten, big.NewInt(int64(n-1-i)), nil)
 		d := tt.IBin(OIMod, tt.IBin(OIDiv, ax, tt.Int(p)), tt.IntI(10))
-		ds[i] = tt.BVBin(OAdd, tt.Int2BV(8, d), in.mkByte('0'))
+		ds[i] = tt.Int2BV(8, tt.IBin(OIAdd, tt.IntI(48), d)) // integer-encoded digit character
 	}
 	return ds
+}
+
+// digitOf returns the integer value of a decimal digit character and whether the character is
+// known to be a digit (integer-encoded digit strings from symx.Digits).
+func (in *Interp) digitOf(b *Term) (*Term, bool) {
+	if b.op == OInt2BV {
+		x := b.args[0]
+		if x.op == OIAdd && x.args[0].op == OConst && x.args[0].big.IsInt64() && x.args[0].big.Int64() == 48 {
+			if u := in.tt.ubound(x.args[1]); u != nil && u.Cmp(big.NewInt(9)) <= 0 {
+				return x.args[1], true
+			}
+		}
+	}
+	return in.tt.BV2Nat(in.tt.BVBin(OSub, b, in.mkByte('0'))), false
+}
+
+// digitPos recognises d = (ax div 10^p) mod 10 and returns (ax, p).
+func digitPos(d *Term) (*Term, int, bool) {
+	if d.op != OIMod || d.args[1].op != OConst || !d.args[1].big.IsInt64() || d.args[1].big.Int64() != 10 {
+		return nil, 0, false
+	}
+	x := d.args[0]
+	if x.op == OIDiv && x.args[1].op == OConst {
+		// power of ten?
+		p := 0
+		v := new(big.Int).Set(x.args[1].big)
+		ten := big.NewInt(10)
+		r := new(big.Int)
+		for v.Cmp(big.NewInt(1)) > 0 {
+			v.QuoRem(v, ten, r)
+			if r.Sign() != 0 {
+				return nil, 0, false
+			}
+			p++
+		}
+		return x.args[0], p, true
+	}
+	return x, 0, true
+}
+
+// composeDigits returns sum(ds[i] * 10^(n-1-i)), collapsing runs of consecutive decimal digits
+// of one integer term into a single div/mod expression.
+func (in *Interp) composeDigits(ds []*Term) *Term {
+	tt := in.tt
+	n := len(ds)
+	total := tt.IntI(0)
+	pow10 := func(k int) *Term { return tt.Int(new(big.Int).Exp(big.NewInt(10), big.NewInt(int64(k)), nil)) }
+	i := 0
+	for i < n {
+		ax, p, ok := digitPos(ds[i])
+		if !ok {
+			total = tt.IBin(OIAdd, total, tt.IBin(OIMul, ds[i], pow10(n-1-i)))
+			i++
+			continue
+		}
+		j := i + 1
+		q := p
+		for j < n {
+			ax2, p2, ok2 := digitPos(ds[j])
+			if !ok2 || ax2 != ax || p2 != q-1 {
+				break
+			}
+			q = p2
+			j++
+		}
+		// digits positions p..q of ax, count = p-q+1
+		grp := tt.IBin(OIMod, tt.IBin(OIDiv, ax, pow10(q)), pow10(p-q+1))
+		total = tt.IBin(OIAdd, total, tt.IBin(OIMul, grp, pow10(n-j)))
+		i = j
+	}
+	return total
 }
 
 // parseDecSym parses [+-]?digits with symbolic characters; forks on sign/validity.
@@ -500,13 +571,16 @@ func (in *Interp) parseDecSym(bs []*Term) (*Term, bool) {
 		return nil, false
 	}
 	valid := tt.True
-	v := tt.IntI(0)
+	var ds []*Term
 	for _, b := range bs {
-		isd := tt.And(tt.Cmp(OUle, in.mkByte('0'), b), tt.Cmp(OUle, b, in.mkByte('9')))
-		valid = tt.And(valid, isd)
-		d := tt.BV2Nat(tt.BVBin(OSub, b, in.mkByte('0')))
-		v = tt.IBin(OIAdd, tt.IBin(OIMul, v, tt.IntI(10)), d)
+		d, known := in.digitOf(b)
+		if !known {
+			isd := tt.And(tt.Cmp(OUle, in.mkByte('0'), b), tt.Cmp(OUle, b, in.mkByte('9')))
+			valid = tt.And(valid, isd)
+		}
+		ds = append(ds, d)
 	}
+	v := in.composeDigits(ds)
 	// note: '_' separators are only legal with base 0
 	if !in.branch(valid) {
 		return nil, false
